@@ -294,7 +294,13 @@ def run_cbmc(job):
             if m:
                 pid, desc, st = m.groups()
                 res["nprops"] += 1
-                if st == "FAILURE" and "type conversion" in desc and not re.search(r"\((uint8_t|unsigned char|signed char|char|_Bool)\)", desc):
+                if st == "FAILURE" and "type conversion" in desc:
+                    fn = pid.split(".")[0]
+                    if fn == "main" or re.match(r"(fold_|spec_|abs_|mem|explicit_bzero|verif_)", fn):
+                        continue                      # harness / stub / model code
+                    if re.search(r"\((uint8_t|unsigned char|signed char|char|_Bool)\)", desc) and \
+                            re.search(r"(>>|\b_x\b|\bdata\b|\bcarry\b|\bsum\b|\baccum\b|\bmask\b|\bdomain\b)", desc):
+                        continue                      # explicit byte extraction from a word, not a length
                     res["failed"].append((pid, desc))
         if "VERIFICATION" not in out:
             res["status"] = "INCONCLUSIVE"
